@@ -53,8 +53,13 @@ def input_srctext(i):
     return i["s"] if i["t"] in ("str", "member") else i["src"]
 
 
-def phase(specs, inputs, sched=None, logging=False, real=None, delays=None, as_store=False):
-    return dict(specs=specs, inputs=inputs, sched=sched, logging=logging, real=real, delays=delays or {}, as_store=as_store)
+def phase(specs, inputs, sched=None, logging=False, real=None, delays=None, as_store=False, opts=None):
+    """real: par_kw of a real `parallel=True` run (max_workers 1/2/3/None, if_serial, chunksize);
+    opts: apply_to / as_completed options (show_progress, cleanup, logger="given")"""
+    d = dict(specs=specs, inputs=inputs, sched=sched, logging=logging, real=real, delays=delays or {}, as_store=as_store)
+    if opts:
+        d["opts"] = opts
+    return d
 
 
 # outcome patterns for one input on a pipeline loader(str->TA) + generic(TA->TA)*: (stage index, action) or None
@@ -534,20 +539,68 @@ def random_case(rng, tier):
     return dict(block="random", phases=phases)
 
 
-def real_parallel_cases(rng, n):
+def real_parallel_cases(rng, tier):
+    """real `parallel=True` runs (loky): the worker-count dimension of the property (1, 2, 3, default), the other par_kw
+    keys (if_serial, chunksize) and skewed task durations; quick: one small case each for 1 and 2 workers"""
     cases = []
-    for _ in range(n):
-        names = rng.sample(TAME, rng.randint(3, 8))
+
+    def one(nin, workers, extra=None, opts=None, skew=True, logging=False):
+        names = rng.sample(TAME, nin)
         specs = std_pipeline(2)
         delays = {}
         for k, nm in enumerate(names):
             if rng.random() < 0.4:
                 apply_pattern(specs, nm, rng.choice(PATTERNS_CORE[1:]))
-            # skewed durations: earlier inputs take longer, forcing reversed / interleaved completion
-            delays[nm] = rng.choice([0, 5, 40, 80]) if rng.random() < 0.5 else (len(names) - k) * 25
-        cases.append(dict(block="real-parallel", phases=[phase(specs, [sinput(s) for s in names], None, real=dict(
-            max_workers=rng.choice([2, 3, 4])), delays=delays)]))
+            if skew:  # earlier inputs take longer, forcing reversed / interleaved completion
+                delays[nm] = rng.choice([0, 5, 40, 80]) if rng.random() < 0.5 else (len(names) - k) * 25
+        real = dict(max_workers=workers)
+        real.update(extra or {})
+        return dict(block="real-parallel", phases=[phase(specs, [sinput(s) for s in names], None, logging=logging, real=real,
+                                                         delays=delays, opts=opts)])
+
+    if tier == "quick":
+        for w in (1, 2):
+            c = one(3, w, skew=False)
+            apply_pattern(c["phases"][0]["specs"], c["phases"][0]["inputs"][0]["s"], (1, ["raise", "bang"]))
+            cases.append(c)
+        return cases
+    for w in (1, 2, 3, None):
+        for _ in range(5):
+            cases.append(one(rng.randint(3, 8), w))
+        cases.append(one(1, w))                                   # a single task
+        cases.append(one(4, w, extra=dict(if_serial=rng.choice(["ignore", "warn", "raise"]))))
+        cases.append(one(5, w, extra=dict(chunksize=rng.choice([1, 2, 3]))))
+        cases.append(one(4, w, opts=dict(show_progress=True), logging=True))
     return cases
+
+
+def option_cases():
+    """apply_to options that change no record: show_progress, logger given / default, cleanup"""
+    cases = []
+    for sched in (None, [2, 0, 1]):
+        for opts, logging in ((dict(show_progress=True), False), (dict(cleanup=False), True), (dict(cleanup=True), True),
+                              (dict(logger="given"), True), (dict(logger="given", cleanup=False, show_progress=True), True)):
+            specs = std_pipeline(1)
+            apply_pattern(specs, "bb.fa", (0, ["raise", "boom"]))
+            cases.append(dict(block="options", phases=[phase(specs, [sinput(x) for x in TAME[:3]], sched, logging=logging,
+                                                               opts=dict(opts))]))
+    return cases
+
+
+def matrix_key(ph):
+    real = ph.get("real")
+    if real:
+        ex = "loky|workers=" + str(real.get("max_workers"))
+        extra = [f"{k}={real[k]}" for k in ("if_serial", "chunksize") if k in real]
+    else:
+        ex = "serial" if ph["sched"] is None else "forced-order(pickled both ways)"
+        extra = []
+    o = ph.get("opts") or {}
+    extra += [f"{k}={o[k]}" for k in sorted(o)]
+    extra.append("logger=" + (("given" if o.get("logger") == "given" else "default") if ph["logging"] else "False"))
+    if ph.get("as_store"):
+        extra.append("input=datastore")
+    return ex + "|" + ",".join(extra)
 
 
 # ------------------------------------------------------------------ comparison
@@ -606,6 +659,11 @@ def compare(rep, cases, impl, model, disagreements):
             exp = orc[pi] if pi < len(orc) else None
             mod = mr[pi] if mr is not None and pi < len(mr) else None
             g2 = {k: v for k, v in got.items() if k != "exc_name"}
+            if io_.get("opt_problem"):
+                nvio += 1
+                rep.violation("option:" + io_["opt_problem"].split(":")[0],
+                              dict(case=small_case(c, pi), phase=pi, observed_impl=io_, broken=io_["opt_problem"]))
+                break
             if exp is not None and g2 != exp:
                 nvio += 1
                 rep.violation(classify(c, pi, exp, got),
@@ -659,6 +717,7 @@ def build_cases(tier, rng):
         cases += exhaustive_core(3, 2, PATTERNS_CORE[:6], members=True)
         nrand = 6000
     cases += hazard_cases(tier)
+    cases += option_cases()
     cases += [random_case(rng, tier) for _ in range(nrand)]
     # the same machinery over write_db + DataStoreSqlite
     if tier == "quick":
@@ -697,7 +756,7 @@ def run(tier: str, seed: int) -> int:
     proof_broken = bool(pr["problems"])
     rep.coverage["store_variant"] = probe_store_variant()
     cases = build_cases(tier, rng)
-    real_cases = real_parallel_cases(rng, 24) if tier == "thorough" else real_parallel_cases(rng, 1)
+    real_cases = real_parallel_cases(rng, tier)
     impl = core.run_impl_sharded("c14_impl.py", cases)
     impl_real = core.run_impl_lines("c14_impl.py", real_cases) if real_cases else []
     model = None
@@ -755,6 +814,12 @@ def run(tier: str, seed: int) -> int:
                 nperm += 1
             if failing and len(ph["inputs"]) >= 2 and (ph["sched"] is not None or ph.get("real")):
                 nontrivial.add(json.dumps(ph, sort_keys=True))
+    matrix: dict = {}
+    for c in allcases:
+        st = c.get("store", "dir")
+        for ph in c["phases"]:
+            k = st + "|" + matrix_key(ph)
+            matrix[k] = matrix.get(k, 0) + 1
     sample = allcases[7] if len(allcases) > 7 else allcases[0]
     rep.coverage.update(
         evaluations=sum(len(c["phases"]) for c in allcases), distinct_nontrivial=len(nontrivial),
@@ -763,6 +828,7 @@ def run(tier: str, seed: int) -> int:
         samples=[dict(case=sample, impl=allimpl[allcases.index(sample)])],
         input_distribution=dict(cases=len(allcases), blocks=dist, non_identity_orders=nperm, real_parallel_runs=len(real_cases)),
         model_impl_disagreements=ndis, spec_violations=nvio,
+        run_matrix=dict(sorted(matrix.items())),
         fixed_defect_classes=rep.stale,
         cases_with_good_identifiers=covered, cases_with_identifiers_outside_theorem=uncovered,
         partial=["real multiprocessing (loky) schedules are sampled, not proved: the theorems quantify over every order in "
